@@ -17,5 +17,5 @@ if [ -n "$demo" ]; then
   ( cd "$wt" && PYTHONPATH="$wt" SPSDK_CACHE_FOLDER="$wt/_cache" timeout 600 /venv/bin/python "$demo" >/tmp/evalmut-demo-mut.log 2>&1 ); echo "demo with change: rc=$? ($(tail -1 /tmp/evalmut-demo-mut.log))"
 fi
 cd /verif
-VERIF_REPO="$wt" VERIF_WORK="/verif/.work/mut-$$" ./check "$pid" --tier "${TIER:-quick}" 2>&1 | grep -v "^ERROR" | grep -E "^VIOLATION|clause=|^\[|HARNESS|KNOWN" | cut -c1-260 | head -${LINES_MAX:-14}
+VERIF_REPO="$wt" VERIF_WORK="/verif/.work/mut-$$" VERIF_OUT_DIR="/verif/.work/mut-$$/out" ./check "$pid" --tier "${TIER:-quick}" 2>&1 | grep -v "^ERROR" | grep -E "^VIOLATION|clause=|^\[|HARNESS|KNOWN" | cut -c1-260 | head -${LINES_MAX:-14}
 rm -rf "/verif/.work/mut-$$"
